@@ -4,7 +4,7 @@ import IpaVerif.Generated.HybridConsts
 
 `Generated/HybridConsts.lean` is regenerated from the sources on every check (constants `CONV_CHUNK`,
 `PRF_CHUNK`, `AGGREGATE_DEPTH`, both `TARGET_PROOF_SIZE`s, the chunk formulas, the type instantiation of
-`hybrid_protocol` in `Query::execute`, the stage order and the early-return sites). The theorems below
+`hybrid_protocol` in `Query::execute`, the stage order and the empty-shard branches). The theorems below
 are re-checked whenever one of them changes.
 -/
 namespace IpaVerif.C01
@@ -89,10 +89,13 @@ theorem stage_order_as_modelled :
       "breakdown_reveal_aggregation", "finalize", "dp"] ∧
     breakdownStageOrder = ["padding", "shuffle", "reveal", "aggregate"] := by decide
 
-/-- the four sites where a shard without rows (or pairs) returns early or fails with `ZeroRecords`
-(three of them make up known finding F8; `aggregate_reports.report_pairs_empty` is the F11 fix). -/
+/-- the four places where the code branches on an empty shard, in the shape the model assumes (F8
+repaired): only a LONE shard returns early from `hybrid_protocol`; an empty shard reshards an empty stream
+in `compute_prf_and_reshard`; `aggregate_reports` (purely local) returns no rows (F11 fix);
+`breakdown_reveal_aggregation` checks for emptiness only AFTER its collective shuffle. -/
 theorem early_return_sites :
-    earlyReturnSites = ["hybrid_protocol.input_rows_empty", "compute_prf_and_reshard.total_records_specified",
-      "aggregate_reports.report_pairs_empty", "breakdown_reveal_aggregation.attributed_values_empty"] := by decide
+    earlyReturnSites = ["hybrid_protocol.input_rows_empty_and_single_shard",
+      "compute_prf_and_reshard.empty_reshards_empty_stream",
+      "aggregate_reports.report_pairs_empty", "breakdown_reveal_aggregation.attributions_empty_after_shuffle"] := by decide
 
 end IpaVerif.C01
